@@ -7,6 +7,7 @@ import (
 	"errors"
 	"fmt"
 	"runtime"
+	"sort"
 	"strconv"
 	"strings"
 	"sync"
@@ -282,7 +283,7 @@ func blockedState(st string) bool {
 // system stays parked until the harness acts.
 func (r *rig) settle() (map[int64][2]string, error) {
 	self := goid()
-	deadline := time.Now().Add(10 * time.Second)
+	deadline := time.Now().Add(patience)
 	for {
 		gs := gstates(self)
 		ok := true
@@ -302,7 +303,7 @@ func (r *rig) settle() (map[int64][2]string, error) {
 					fmt.Fprintf(&sb, "goroutine %d [%s]\n", id, s[0])
 				}
 			}
-			return gs, fmt.Errorf("system did not become quiescent within 10s:\n%s", sb.String())
+			return gs, fmt.Errorf("stuck: threads that never park: %s; %s", strings.ReplaceAll(strings.TrimSpace(sb.String()), "\n", ", "), r.describePending())
 		}
 		runtime.Gosched()
 		time.Sleep(20 * time.Microsecond)
@@ -313,6 +314,25 @@ func (r *rig) armed(gid int64) int64 {
 	r.mu.Lock()
 	defer r.mu.Unlock()
 	return r.lastArm[gid]
+}
+
+// describePending lists the storage calls the election code is waiting in
+func (r *rig) describePending() string {
+	r.mu.Lock()
+	defer r.mu.Unlock()
+	var items []string
+	for gid, pc := range r.pending {
+		st := "held at its entry"
+		if pc.done {
+			st = "held at its return"
+		}
+		items = append(items, fmt.Sprintf("participant %d goroutine %d in %s(key %d, value %s) %s", pc.part, gid, pc.op, pc.key, pc.val, st))
+	}
+	sort.Strings(items)
+	if len(items) == 0 {
+		return "no storage call pending"
+	}
+	return "pending: " + strings.Join(items, "; ")
 }
 
 func (r *rig) nowNs() int64 { return r.clock.Now().Sub(kit.Epoch).Nanoseconds() }
@@ -352,7 +372,7 @@ func (r *rig) teardown() {
 		go func(p *participant) { p.cleanup(); close(done) }(p)
 		select {
 		case <-done:
-		case <-time.After(5 * time.Second):
+		case <-time.After(time.Second):
 		}
 		close(p.cmds)
 	}
